@@ -10,6 +10,10 @@ package presign
 //@   requires r.SigmaShares != nil && forall(k, party.ID, indom(r.SigmaShares, k) ==> r.SigmaShares[k] != nil)
 //@   assert_at[C01] ResultRound "return r.ResultRound(s)": ecdsa_valid(s.R, s.S, r.PublicKey, r.Message)
 //@   assert_at[C01] ResultRound "return r.ResultRound(s)": typeis(arg1, *ecdsa.Signature) && arg1.(*ecdsa.Signature) == s
+// refinement of the interface contract of round.Round.Finalize (what the handler relies on)
+//@   ensures result1 == nil ==> result0 != nil
+//@   ensures typeis(result0, *round.Abort) ==> result0.(*round.Abort).Err != nil
+//@   ensures typeis(result0, *round.Output) ==> result0.(*round.Output).Result != nil
 
 // ---- start functions (C20)
 //@ func StartPresign$1
@@ -148,6 +152,11 @@ package presign
 //@   requires ps1ok(r) && psall(r) && out != nil && !closed(out)
 // (induction on the session object) on success the next round starts from the state invariant its methods assume
 //@   ensures result1 == nil ==> (typeis(result0, *presign2) && ps2ok(result0.(*presign2)) && result0.(*presign2).presign1 == r && result0.(*presign2).GammaShare != nil && result0.(*presign2).KShare != nil && result0.(*presign2).GNonce != nil)
+// refinement of the interface contract of round.Round.Finalize (what the handler relies on)
+//@   ensures !closed(out)
+//@   ensures result1 == nil ==> result0 != nil
+//@   ensures typeis(result0, *round.Abort) ==> result0.(*round.Abort).Err != nil
+//@   ensures typeis(result0, *round.Output) ==> result0.(*round.Output).Result != nil
 //@ func (*presign2).Finalize
 //@   nopanic[C05]
 //@   use bits
@@ -155,6 +164,11 @@ package presign
 //@   requires forall(j, party.ID, inslice(r.Helper.partyIDs, j) ==> (r.K[j] != nil && r.K[j].c != nil && r.G[j] != nil && r.G[j].c != nil))
 // (induction on the session object) on success the next round starts from the state invariant its methods assume
 //@   ensures result1 == nil ==> (typeis(result0, *presign3) && ps3ok(result0.(*presign3)) && result0.(*presign3).presign2 == r && result0.(*presign3).DeltaShareBeta != nil && result0.(*presign3).ChiShareBeta != nil)
+// refinement of the interface contract of round.Round.Finalize (what the handler relies on)
+//@   ensures !closed(out)
+//@   ensures result1 == nil ==> result0 != nil
+//@   ensures typeis(result0, *round.Abort) ==> result0.(*round.Abort).Err != nil
+//@   ensures typeis(result0, *round.Output) ==> result0.(*round.Output).Result != nil
 //@ func (*presign3).Finalize
 //@   nopanic[C05]
 //@   requires ps3ok(r) && psall(r.presign1) && out != nil && !closed(out) && r.GammaShare != nil && r.KShare != nil && r.DeltaShareBeta != nil && r.ChiShareBeta != nil
@@ -175,12 +189,22 @@ package presign
 //@   loop 1: invariant forall(j, party.ID, inslice(r.Helper.otherPartyIDs, j) ==> r.ChiShareBeta[j] != nil)
 // (induction on the session object) on success the next round starts from the state invariant its methods assume
 //@   ensures (result1 == nil && typeis(result0, *presign4)) ==> (ps4ok(result0.(*presign4)) && result0.(*presign4).presign3 == r && result0.(*presign4).ChiShare != nil && result0.(*presign4).ElGamalChiNonce != nil)
+// refinement of the interface contract of round.Round.Finalize (what the handler relies on)
+//@   ensures !closed(out)
+//@   ensures result1 == nil ==> result0 != nil
+//@   ensures typeis(result0, *round.Abort) ==> result0.(*round.Abort).Err != nil
+//@   ensures typeis(result0, *round.Output) ==> result0.(*round.Output).Result != nil
 //@ func (*presign4).Finalize
 //@   nopanic[C05]
 //@   use bits
 //@   requires ps4ok(r) && psall(r.presign1) && out != nil && !closed(out) && r.GammaShare != nil && r.GNonce != nil && r.G[r.Helper.info.SelfID] != nil && r.G[r.Helper.info.SelfID].c != nil
 // (induction on the session object) on success the next round starts from the state invariant its methods assume
 //@   ensures result1 == nil ==> (typeis(result0, *presign5) && ps5ok(result0.(*presign5)) && result0.(*presign5).presign4 == r)
+// refinement of the interface contract of round.Round.Finalize (what the handler relies on)
+//@   ensures !closed(out)
+//@   ensures result1 == nil ==> result0 != nil
+//@   ensures typeis(result0, *round.Abort) ==> result0.(*round.Abort).Err != nil
+//@   ensures typeis(result0, *round.Output) ==> result0.(*round.Output).Result != nil
 //@ func (*presign5).Finalize
 //@   nopanic[C05]
 //@   requires ps5ok(r) && psall(r.presign1) && out != nil && !closed(out) && r.KShare != nil && r.ElGamalKNonce != nil
@@ -191,6 +215,11 @@ package presign
 // randomness cannot fail; its error is ignored by the code)
 // (induction on the session object) on success the next round starts from the state invariant its methods assume
 //@   ensures result1 == nil ==> (typeis(result0, *presign6) && ps6ok(result0.(*presign6)) && result0.(*presign6).presign5 == r)
+// refinement of the interface contract of round.Round.Finalize (what the handler relies on)
+//@   ensures !closed(out)
+//@   ensures result1 == nil ==> result0 != nil
+//@   ensures typeis(result0, *round.Abort) ==> result0.(*round.Abort).Err != nil
+//@   ensures typeis(result0, *round.Output) ==> result0.(*round.Output).Result != nil
 //@ func proveNth
 //@   nopanic[C05]
 //@   requires hash != nil && hash.h != nil && paillier.skwf(paillierSecret) && paillier.ctvalid(paillierSecret.PublicKey, c)
@@ -209,6 +238,11 @@ package presign
 //@   loop 4: invariant RBar != nil && DeltaInv != nil
 // (induction on the session object) on success the next round starts from the state invariant its methods assume
 //@   ensures (result1 == nil && typeis(result0, *presign7)) ==> (ps7ok(result0.(*presign7)) && result0.(*presign7).presign6 == r && result0.(*presign7).RBar != nil)
+// refinement of the interface contract of round.Round.Finalize (what the handler relies on)
+//@   ensures !closed(out)
+//@   ensures result1 == nil ==> result0 != nil
+//@   ensures typeis(result0, *round.Abort) ==> result0.(*round.Abort).Err != nil
+//@   ensures typeis(result0, *round.Output) ==> result0.(*round.Output).Result != nil
 //@ func (*presign7).Finalize
 //@   nopanic[C05]
 //@   requires ps7ok(r) && psall(r.presign1) && psopen(r.presign3) && out != nil && !closed(out) && r.KShare != nil && r.ChiShare != nil && r.ElGamalChiNonce != nil && r.PublicKey != nil && r.RBar != nil && r.ChiShareAlpha != nil
@@ -218,9 +252,19 @@ package presign
 //@   loop 2: invariant len(presignatureID) == 32
 //@   loop 3: invariant ps7ok(r) && psall(r.presign1) && psopen(r.presign3) && ChiProofs != nil && YHat != nil && YHatProof != nil
 //@   loop 4: invariant ChiAlphas != nil
+// refinement of the interface contract of round.Round.Finalize (what the handler relies on)
+//@   ensures !closed(out)
+//@   ensures result1 == nil ==> result0 != nil
+//@   ensures typeis(result0, *round.Abort) ==> result0.(*round.Abort).Err != nil
+//@   ensures typeis(result0, *round.Output) ==> result0.(*round.Output).Result != nil
 //@ func (*sign1).Finalize
 //@   nopanic[C05]
 //@   requires r != nil && r.Helper != nil && out != nil && !closed(out) && r.PreSignature != nil && r.PreSignature.R != nil && r.PreSignature.KShare != nil && r.PreSignature.ChiShare != nil && len(r.Message) > 0
+// refinement of the interface contract of round.Round.Finalize (what the handler relies on)
+//@   ensures !closed(out)
+//@   ensures result1 == nil ==> result0 != nil
+//@   ensures typeis(result0, *round.Abort) ==> result0.(*round.Abort).Err != nil
+//@   ensures typeis(result0, *round.Output) ==> result0.(*round.Output).Result != nil
 //@ func (*sign2).Finalize
 //@   nopanic[C05]
 //@   requires r != nil && r.sign1 != nil && r.Helper != nil && r.PublicKey != nil && len(r.Message) > 0 && r.SigmaShares != nil
@@ -229,6 +273,10 @@ package presign
 //@   requires forall(j, party.ID, indom(r.PreSignature.RBar.Points, j) ==> (r.PreSignature.RBar.Points[j] != nil && r.PreSignature.S.Points[j] != nil && r.SigmaShares[j] != nil))
 // the culprit arithmetic of the abort rounds: every party's opened values are present (the Store gates refuse
 // incomplete abort messages; our own entries come from round 3)
+// refinement of the interface contract of round.Round.Finalize (what the handler relies on)
+//@   ensures result1 == nil ==> result0 != nil
+//@   ensures typeis(result0, *round.Abort) ==> result0.(*round.Abort).Err != nil
+//@   ensures typeis(result0, *round.Output) ==> result0.(*round.Output).Result != nil
 //@ func (*abort1).Finalize
 //@   nopanic[C05]
 //@   requires r != nil && ps6ok(r.presign6) && r.KShares != nil && r.GammaShares != nil && r.DeltaAlphas != nil
@@ -241,6 +289,10 @@ package presign
 //@   loop 2: invariant r != nil && ps6ok(r.presign6) && culprits == nil || fresh(culprits)
 //@   loop 2: invariant forall(j, party.ID, inslice(r.Helper.partyIDs, j) ==> (r.KShares[j] != nil && r.GammaShares[j] != nil && r.DeltaShares[j] != nil && r.DeltaAlphas[j] != nil))
 //@   loop 2: invariant forall(j, party.ID, forall(l, party.ID, (inslice(r.Helper.partyIDs, j) && inslice(r.Helper.partyIDs, l) && l != j) ==> r.DeltaAlphas[j][l] != nil))
+// refinement of the interface contract of round.Round.Finalize (what the handler relies on)
+//@   ensures result1 == nil ==> result0 != nil
+//@   ensures typeis(result0, *round.Abort) ==> result0.(*round.Abort).Err != nil
+//@   ensures typeis(result0, *round.Output) ==> result0.(*round.Output).Result != nil
 //@ func (*abort2).Finalize
 //@   nopanic[C05]
 //@   requires r != nil && ps7ok(r.presign7) && r.KShares != nil && r.YHat != nil && r.ChiAlphas != nil
@@ -253,3 +305,7 @@ package presign
 //@   loop 1: invariant forall(j, party.ID, forall(l, party.ID, (inslice(r.Helper.partyIDs, j) && inslice(r.Helper.partyIDs, l) && l != j) ==> r.ChiAlphas[j][l] != nil))
 //@   loop 2: invariant forall(j, party.ID, inslice(r.Helper.partyIDs, j) ==> (r.KShares[j] != nil && r.YHat[j] != nil && r.ECDSA[j] != nil && r.ChiAlphas[j] != nil && r.ElGamalChi[j] != nil && r.ElGamalChi[j].M != nil))
 //@   loop 2: invariant forall(j, party.ID, forall(l, party.ID, (inslice(r.Helper.partyIDs, j) && inslice(r.Helper.partyIDs, l) && l != j) ==> r.ChiAlphas[j][l] != nil))
+// refinement of the interface contract of round.Round.Finalize (what the handler relies on)
+//@   ensures result1 == nil ==> result0 != nil
+//@   ensures typeis(result0, *round.Abort) ==> result0.(*round.Abort).Err != nil
+//@   ensures typeis(result0, *round.Output) ==> result0.(*round.Output).Result != nil
